@@ -454,9 +454,14 @@ Section Main.
         change (forallb (fun xb => negb (is_safe_name (fst xb)) && simple f np false (snd xb)) bs && simple_seq f np tl body0 = true) in H.
         apply andb_true_iff in H. destruct H as [Hb Hbody].
         pose proof (keeps_push s) as Kp. pose proof (prims_ok_push s env Hp) as Hpp.
-        change (with_frames s (frames s ++ [([] : frame)])) with (snd (push_frame s)) in E.
-        change (length (frames s)) with (fst (push_frame s)) in E.
-        destruct (push_frame s) as [fr sp] eqn:Epush. cbn [fst snd] in Kp, Hpp, E.
+        assert (Hfold : exists fr sp, keeps s sp /\ prims_ok sp (fr :: env) /\
+                  (if seq then (_ <- ev_letseq (eval_tco strict true n (Some (f, c)) false) fr (fr :: env) bs ;;
+                                tev_begin (eval_tco strict true n (Some (f, c))) tl (fr :: env) body0) sp
+                   else (vs <- ev_list (eval_tco strict true n (Some (f, c)) false) (fr :: env) (map snd bs) ;;
+                         _ <- bind_all fr (rev (combine (map fst bs) vs)) ;;
+                         tev_begin (eval_tco strict true n (Some (f, c))) tl (fr :: env) body0) sp) = (r, s')).
+        { exists (fst (push_frame s)), (snd (push_frame s)). split; [exact Kp|]. split; [exact Hpp|]. destruct seq; exact E. }
+        clear E Kp Hpp. destruct Hfold as [fr [sp [Kp [Hpp E]]]].
         eapply keeps_trans; [exact Kp|].
         destruct seq.
         * unfold bindM in E.
@@ -490,11 +495,100 @@ Section Main.
           -- inversion E; subst. exact (sp_list f np _ Hev (fr :: env) _ _ _ _ Hinit Hpp E1).
       + (* newScope *)
         pose proof (keeps_push s) as Kp. pose proof (prims_ok_push s env Hp) as Hpp.
-        change (with_frames s (frames s ++ [([] : frame)])) with (snd (push_frame s)) in E.
-        change (length (frames s)) with (fst (push_frame s)) in E.
-        destruct (push_frame s) as [fr sp] eqn:Epush. cbn [fst snd] in Kp, Hpp, E.
+        assert (Hfold : exists fr sp, keeps s sp /\ prims_ok sp (fr :: env) /\
+                  tev_begin (eval_tco strict true n (Some (f, c))) tl (fr :: env) es sp = (r, s')).
+        { exists (fst (push_frame s)), (snd (push_frame s)). split; [exact Kp|]. split; [exact Hpp|]. exact E. }
+        clear E Kp Hpp. destruct Hfold as [fr [sp [Kp [Hpp E]]]].
         eapply keeps_trans; [exact Kp|].
         exact (sp_seq f np _ Hev tl (fr :: env) es _ _ _ H Hpp E).
       + inversion E; subst; apply keeps_refl.
   Qed.
 End Main.
+
+Lemma tloop_unfold : forall strict count n nm ps rest body cenv binds s,
+  tloop strict count (S n) (VClos nm ps rest body cenv) binds s =
+  let '(fid, s1) := push_frame s in
+  match (_ <- bind_all fid binds ;;
+         no_loop_sig ELoop (tev_begin (eval_tco strict count n (self_of (VClos nm ps rest body cenv))) true (fid :: cenv) body)) s1 with
+  | (Sig (STail vs), s2) =>
+    match zip_params ps rest vs [] with
+    | Some binds' => tloop strict count n (VClos nm ps rest body cenv) binds' s2
+    | None => (Sig (SErr EOther), s2)
+    end
+  | r => r
+  end.
+Proof. reflexivity. Qed.
+
+Lemma zip_names : forall ps0 args acc out,
+  zip_params ps0 None args acc = Some out ->
+  (forall x, In x ps0 -> is_safe_name x = false) ->
+  (forall x (v : value), In (x, v) acc -> is_safe_name x = false) ->
+  forall x v, In (x, v) out -> is_safe_name x = false.
+Proof.
+  induction ps0 as [|p ps0 IH]; simpl; intros args acc out E Hps Hacc x v Hin.
+  - destruct args; inversion E; subst. eapply Hacc; eassumption.
+  - destruct args as [|a args]; [discriminate|].
+    eapply (IH args ((p, a) :: acc) out E); [intros; apply Hps; right; assumption| |exact Hin].
+    intros x0 v0 [Heq|Hin0]; [inversion Heq; subst; apply Hps; left; reflexivity|eapply Hacc; eassumption].
+Qed.
+
+Section Loop.
+  Variable strict : bool.
+  Variable f : ident.
+  Variable ps : list ident.
+  Variable body : list expr.
+  Variable cenv : list nat.
+  Let c := VClos (Some f) ps None body cenv.
+  Hypothesis Hf : is_safe_name f = false.
+  Hypothesis Hps : forall x, In x ps -> is_safe_name x = false.
+  Hypothesis Hbody : simple_seq f (length ps) true body = true.
+
+  Theorem sp_tloop : forall n binds s r s',
+    (forall x v, In (x, v) binds -> is_safe_name x = false) -> prims_ok s cenv ->
+    tloop strict true n c binds s = (r, s') -> keeps s s'.
+  Proof.
+    induction n as [|n IH]; intros binds s r s' Hb Hp E.
+    - simpl in E. inversion E; subst. apply keeps_refl.
+    - unfold c in E. rewrite tloop_unfold in E. fold c in E.
+      pose proof (keeps_push s) as Kp. pose proof (prims_ok_push s cenv Hp) as Hpp.
+      destruct (push_frame s) as [fid s1]. simpl in Kp, Hpp.
+      unfold bindM in E.
+      destruct (bind_all fid binds s1) as [[u|g|] s2] eqn:Eb.
+      + pose proof (keeps_bind_all _ _ _ _ _ Hb Eb) as K2.
+        assert (Hp2 : prims_ok s2 (fid :: cenv)) by (eapply prims_ok_keeps; eassumption).
+        unfold no_loop_sig in E.
+        destruct (tev_begin (eval_tco strict true n (self_of c)) true (fid :: cenv) body s2) as [r4 s4] eqn:E4.
+        assert (K4 : keeps s2 s4).
+        { eapply (sp_seq f (length ps) (eval_tco strict true n (Some (f, c)))); [|exact Hbody|exact Hp2|exact E4].
+          intros tl env e s0 r0 s0' H0 Hp0 E0. eapply (sp_eval strict f ps body cenv Hf); eassumption. }
+        assert (K : keeps s s4) by (eapply keeps_trans; [exact Kp|eapply keeps_trans; eassumption]).
+        destruct r4 as [v|[l|l|e0|vs|]|]; try (inversion E; subst; exact K).
+        destruct (zip_params ps None vs []) as [binds'|] eqn:Ez; [|inversion E; subst; exact K].
+        eapply keeps_trans; [exact K|].
+        eapply IH; [|eapply prims_ok_keeps; eassumption|exact E].
+        eapply zip_names; [exact Ez|exact Hps|]. intros x v [].
+      + destruct (bind_all_sig _ _ _ _ _ Eb) as [e0 He]. subst g. inversion E; subst. eapply keeps_trans; [exact Kp|]. eapply keeps_bind_all; [exact Hb|exact Eb].
+      + inversion E; subst. eapply keeps_trans; [exact Kp|]. eapply keeps_bind_all; [exact Hb|exact Eb].
+  Qed.
+
+  (* one call = one activation, whatever the number of iterations *)
+  Theorem tail_space_constant_syntactic_proof : forall n args s r s',
+    prims_ok s cenv -> apply_tco strict true n c args s = (r, s') ->
+    depth s' = depth s /\ (hwm s' = hwm s \/ hwm s' = Nat.max (hwm s) (S (depth s))).
+  Proof.
+    intros n args s r s' Hp E. destruct n as [|n]; [simpl in E; inversion E; subst; auto|].
+    unfold c in E. simpl in E.
+    destruct (zip_params ps None args []) as [binds|] eqn:Ez; [|inversion E; subst; auto].
+    fold c in E.
+    destruct (tloop strict true n c binds (enter s)) as [r1 s1] eqn:El. inversion E; subst.
+    assert (K : keeps (enter s) s1).
+    { eapply sp_tloop; [| |exact El].
+      - eapply zip_names; [exact Ez|exact Hps|]. intros x v [].
+      - exact Hp. }
+    destruct K as [_ [Kd Kh]]. simpl in Kd, Kh. simpl. rewrite Kd, Kh. auto.
+  Qed.
+End Loop.
+
+(* the global frame of a fresh interpreter resolves every first-order primitive name *)
+Lemma prims_ok_init : forall failat, prims_ok (init_store failat) [O].
+Proof. intros failat p Hp. exists O. destruct p; try discriminate Hp; reflexivity. Qed.
